@@ -214,6 +214,18 @@ func (sc *Script) Slice(upto int, goalTerms []string, extra []string) map[int]bo
 	return keep
 }
 
+// DefineAlways is Define without the shortcut for atoms: the result always carries the prefix
+// (object identities are classified by it).
+func (sc *Script) DefineAlways(prefix, sort, term string) string {
+	sc.n++
+	q := sym(fmt.Sprintf("%s!%d", prefix, sc.n))
+	sc.declared[q] = true
+	sc.defIndex[q] = len(sc.lines)
+	sc.defTerm[q] = term
+	sc.lines = append(sc.lines, scriptLine{kind: "def", name: q, text: fmt.Sprintf("(define-fun %s () %s %s)", q, sort, term)})
+	return q
+}
+
 func (sc *Script) Len() int { return len(sc.lines) }
 
 // Text renders the script up to line n (exclusive), optionally sliced to the cone of influence of goal terms.
